@@ -132,10 +132,12 @@ class HooksMixin(object):
         self.hook_window_start = len(simdb.ctx.events)
         hooks = self.hook_log[self.hook_log_start:]
         self.hook_log_start = len(self.hook_log)
-        tables = dict((self.E[e.name]._table_, e.name) for e in self.schema.entities)
+        # (single-table inheritance: statements and hooks are counted per table, under the name of the root entity)
+        root = dict((e.name, self.E[e.name]._root_.__name__) for e in self.schema.entities)
+        tables = dict((self.E[e.name]._table_, root[e.name]) for e in self.schema.entities)
         timeline = []       # (g, order, what...)  hooks that ran when the counter was g precede DB call g
         for (g, event, en, oid) in hooks:
-            timeline.append((g, 0, 'hook', event, en, oid))
+            timeline.append((g, 0, 'hook', event, root.get(en, en), oid))
         for ev in events:
             if ev.get('kind') != 'execute' or ev.get('phase') != 'main':
                 continue
